@@ -264,3 +264,22 @@ Example C02_uninterpreted_if_data_clean_run :
   | _ => None
   end = Some (true, 2%nat, demo_unknown_shapes, demo_unknown_shapes).
 Proof. vm_compute. reflexivity. Qed.
+
+(* ---------- a recorded finding, as the model shows it ---------- *)
+(* known finding position-restricted-reorder (C01 / C02): position-restricted children that are not in ascending position order in the
+   input are written in position order - here FNC_VALUES 2 in front of AXIS_PTS_X 1 comes out behind it, from a load that reports nothing.
+   (This is the "documented reordering of position-restricted items" of the statement; the theorems above exclude it through [good].) *)
+Example C02_known_position_restricted_reorder_witness :
+  match tokenize_core 0 (bytes_of "ASAP2_VERSION 1 71 /begin PROJECT p """" /begin MODULE m """" /begin RECORD_LAYOUT rl FNC_VALUES 2 UBYTE ROW_DIR DIRECT AXIS_PTS_X 1 UBYTE INDEX_INCR DIRECT /end RECORD_LAYOUT /end MODULE /end PROJECT") with
+  | TOk toks =>
+      match parse_file spec_shipped (init_state toks false 1 []) with
+      | (ROk v, s') =>
+          match tokenize_core 0 (write_node spec_shipped posr_shipped [] [] 12 v 0) with
+          | TOk toks2 => Some (ps_log s', map (fun t => string_of_list_ascii (tk_text t)) (firstn 10 (skipn 14 toks2)))
+          | _ => None
+          end
+      | _ => None
+      end
+  | _ => None
+  end = Some ([], ["AXIS_PTS_X"; "1"; "UBYTE"; "INDEX_INCR"; "DIRECT"; "FNC_VALUES"; "2"; "UBYTE"; "ROW_DIR"; "DIRECT"]%string).
+Proof. vm_compute. reflexivity. Qed.
